@@ -25,6 +25,8 @@ import (
 
 var w *rec.W
 
+var watchdogAfter = 180 * time.Second
+
 func yn(b bool) string {
 	if b {
 		return "yes"
@@ -208,6 +210,158 @@ func scenarioUnreliable(sc int) {
 	go mb.Stop()
 }
 
+// scenarioMixed: a reliable and an unreliable tube with the SAME id; the reliable one loses a data frame (RTO
+// retransmission, RTR acknowledgements); the unreliable reader lags behind the writer.  Every unreliable message
+// read must be one that was written on that tube, whole and in order; nothing else may show up there.
+func scenarioMixed(sc int) {
+	policy := func(f *scriptconn.Frame) scriptconn.Action {
+		if f.Dir == 0 && f.REL && f.Kind() == "data" && (f.FrameNo == 2 || f.FrameNo == 5) && f.Nth == 1 {
+			return scriptconn.Action{Drop: true}
+		}
+		return scriptconn.Action{}
+	}
+	_, ma, mb := newPair(policy)
+	w.Ev("reset", "sc", sc, "name", "mixed-same-id")
+	r, err := ma.CreateReliableTube(21)
+	if err != nil {
+		return
+	}
+	u, err := ma.CreateUnreliableTube(22)
+	if err != nil {
+		return
+	}
+	var rb *tubes.Reliable
+	var ub *tubes.Unreliable
+	for k := 0; k < 2; k++ {
+		t, err := mb.Accept()
+		if err != nil {
+			return
+		}
+		if t.IsReliable() {
+			rb = t.(*tubes.Reliable)
+		} else {
+			ub = t.(*tubes.Unreliable)
+		}
+	}
+	w.Ev("note", "sc", sc, "what", fmt.Sprintf("reliable id %d, unreliable id %d", r.GetID(), u.GetID()))
+	inst := instCtr.Add(1)
+	const K = 30
+	var wg sync.WaitGroup
+	wg.Add(2)
+	go func() { // reliable stream with loss, read concurrently
+		defer wg.Done()
+		r.Write(tagBytes(inst, 250000))
+		r.Close()
+	}()
+	var relBytes int
+	go func() {
+		defer wg.Done()
+		buf := make([]byte, 65536)
+		rb.SetReadDeadline(time.Now().Add(10 * time.Second))
+		for {
+			n, err := rb.Read(buf)
+			relBytes += n
+			if err != nil {
+				return
+			}
+		}
+	}()
+	msgs := make([][]byte, K)
+	for i := range msgs {
+		msgs[i] = bytes.Repeat([]byte{byte('A' + i%26)}, 10+i*37)
+		u.WriteMsgUDP(msgs[i], nil, nil)
+		time.Sleep(15 * time.Millisecond)
+	}
+	wg.Wait()
+	time.Sleep(700 * time.Millisecond) // past the RTO retransmissions
+	// the lagging reader now drains the unreliable tube
+	got, intact, extra := 0, true, 0
+	next := 0
+	buf := make([]byte, 70000)
+	for {
+		ub.SetReadDeadline(time.Now().Add(150 * time.Millisecond))
+		n, _, _, _, err := ub.ReadMsgUDP(buf, nil)
+		if err != nil {
+			break
+		}
+		got++
+		found := false
+		for j := next; j < K; j++ {
+			if bytes.Equal(buf[:n], msgs[j]) {
+				next = j + 1
+				found = true
+				break
+			}
+		}
+		if !found {
+			extra++
+			intact = false
+		}
+	}
+	// nothing was ever written towards the opener's end of the unreliable tube
+	for {
+		u.SetReadDeadline(time.Now().Add(150 * time.Millisecond))
+		if _, _, _, _, err := u.ReadMsgUDP(buf, nil); err != nil {
+			break
+		}
+		extra++
+		intact = false
+	}
+	w.Ev("unrelseq", "sc", sc, "wrote", K, "got", got, "intact", yn(intact), "extra", extra, "relbytes", relBytes)
+	go ma.Stop()
+	go mb.Stop()
+	w.Ev("end", "sc", sc, "created", 2)
+}
+
+// scenarioIdleReopen: a tube stays idle, both sides close, the opener's final acknowledgement is lost, and the
+// opener opens a new tube (same id) after the reap delay: the new tube must be offered to the acceptor.
+func scenarioIdleReopen(sc int, idle, gap time.Duration) {
+	var mu sync.Mutex
+	closing := false
+	policy := func(f *scriptconn.Frame) scriptconn.Action {
+		mu.Lock()
+		defer mu.Unlock()
+		if closing && f.Dir == 0 && f.Kind() == "ack" {
+			return scriptconn.Action{Drop: true} // the opener's acknowledgements of the peer's FIN never arrive
+		}
+		return scriptconn.Action{}
+	}
+	_, ma, mb := newPair(policy)
+	w.Ev("reset", "sc", sc, "name", fmt.Sprintf("idle-%dms-reopen-after-%dms", idle.Milliseconds(), gap.Milliseconds()))
+	acc := &acceptor{seen: map[int64]int{}}
+	go serve(sc, "B", mb, acc)
+	inst := instCtr.Add(1)
+	t, err := ma.CreateReliableTube(tubes.TubeType(10 + inst%200))
+	if err != nil {
+		return
+	}
+	w.Ev("create", "sc", sc, "end", "A", "id", t.GetID(), "rel", "yes", "type", byte(10+inst%200), "inst", inst, "clash", "no", "with", 0)
+	t.Write(tagBytes(inst, 70))
+	time.Sleep(idle)
+	mu.Lock()
+	closing = true
+	mu.Unlock()
+	t.Close()
+	waitClosed(t, 6*time.Second)
+	mu.Lock()
+	closing = false
+	mu.Unlock()
+	time.Sleep(gap)
+	inst2 := instCtr.Add(1)
+	t2, err := ma.CreateReliableTube(tubes.TubeType(10 + inst2%200))
+	if err == nil {
+		w.Ev("create", "sc", sc, "end", "A", "id", t2.GetID(), "rel", "yes", "type", byte(10+inst2%200), "inst", inst2, "clash", "no", "with", 0)
+		t2.Write(tagBytes(inst2, 70))
+		t2.Close()
+		waitClosed(t2, 6*time.Second)
+	}
+	time.Sleep(500 * time.Millisecond)
+	acc.done.Wait()
+	go ma.Stop()
+	go mb.Stop()
+	w.Ev("end", "sc", sc, "created", 2)
+}
+
 // scenarioLateReq: the history of the recorded finding - RESP withheld so that A retransmits REQ, the second copy
 // is held back, the tube is used and closed on both sides and reaped, then the copy is released.
 func scenarioLateReq(sc int) {
@@ -273,6 +427,14 @@ func scenarioLateReq(sc int) {
 
 func main() {
 	logrus.SetOutput(io.Discard)
+	// watchdog: a driver that cannot finish means some library call never returned
+	time.AfterFunc(watchdogAfter, func() {
+		if w != nil {
+			w.Ev("stuck", "sc", -1, "after_s", int(watchdogAfter.Seconds()))
+			w.Close()
+		}
+		os.Exit(3)
+	})
 	w = rec.Must(os.Args[1])
 	defer w.Close()
 	seed, _ := strconv.ParseInt(os.Args[2], 10, 64)
@@ -309,5 +471,12 @@ func main() {
 	}
 	launch(scenarioUnreliable)
 	launch(scenarioLateReq)
+	launch(scenarioMixed)
+	for _, idle := range []time.Duration{0, 1200 * time.Millisecond, 2500 * time.Millisecond} {
+		for _, gap := range []time.Duration{1700 * time.Millisecond, 2500 * time.Millisecond} {
+			idle, gap := idle, gap
+			launch(func(sc int) { scenarioIdleReopen(sc, idle, gap) })
+		}
+	}
 	wg.Wait()
 }
